@@ -31,6 +31,10 @@ type spec struct {
 	Ops   int         `json:"ops"`
 	Cfg   hist.Config `json:"cfg"`
 	RunMs int         `json:"run_ms,omitempty"`
+	// Script, when set, is executed first (op codes of the sequential runner:
+	// 0 write, 16 sync, 21 sync-and-wait, 25 snapshot, 27 compact, 100/101 disk full
+	// on/off, 230..233 litestream checkpoint PASSIVE/FULL/RESTART/TRUNCATE)
+	Script []int `json:"script,omitempty"`
 }
 
 func init() {
@@ -85,6 +89,14 @@ func cases(run *vf.Run) ([]json.RawMessage, error) {
 	nF := 24
 	if run.Tier == "thorough" {
 		nF = 400
+	}
+	// directed: everything copied; disk full; litestream checkpoint of each mode (the WAL
+	// restarts, the copy after it fails); space again; application commits; snapshot
+	// before the next sync; syncs
+	for i, ck := range []int{230, 231, 232, 233} {
+		cfg := hist.Config{PageSize: []int{4096, 1024, 8192, 512}[i], MinCheckpointPageN: 1000, MaxSyncWALFrames: 0}
+		out = append(out, vf.Spec(spec{Kind: "F", Seed: vf.SubSeed(run.Seed, "C02F-directed", i), Ops: 6, Cfg: cfg,
+			Script: []int{0, 0, 16, 0, 0, 21, 100, ck, 101, 0, 0, 25, 21, 0, 21}}))
 	}
 	for i := 0; i < nF; i++ {
 		rng := rand.New(rand.NewSource(vf.SubSeed(run.Seed, "C02F", i)))
@@ -153,21 +165,32 @@ func runA(s spec, dir string, res *vf.Result) *vf.Result {
 	}
 	// a fault episode is a short forced sequence: [disk full] litestream op(s)
 	// [space again] application writes, then a snapshot / sync / checkpoint
-	var forced []int
+	forced := append([]int(nil), s.Script...)
 	failedUnderFault := 0
-	for i := 0; i < s.Ops; i++ {
+	for i := 0; i < s.Ops+len(s.Script); i++ {
 		r := rng.Intn(32)
 		if faults && len(forced) == 0 && rng.Intn(9) == 0 {
 			lsop := func() int { return []int{16, 16, 21, 23, 23, 23, 25, 27}[rng.Intn(8)] } // sync, syncwait, ckpt, snapshot, compact
-			forced = append(forced, 100, lsop())
-			if rng.Intn(3) == 0 {
-				forced = append(forced, lsop())
+			if rng.Intn(2) == 0 {
+				// everything copied before the disk fills up: the checkpoint under the
+				// fault then restarts the WAL and fails in the copy after it; the
+				// application commits, and a snapshot is asked for before the next sync
+				forced = append(forced, 110, 16, 100, 230+rng.Intn(4), 101, 0)
+				if rng.Intn(2) == 0 {
+					forced = append(forced, 0)
+				}
+				forced = append(forced, []int{25, 25, 25, 16, 23}[rng.Intn(5)])
+			} else {
+				forced = append(forced, 100, lsop())
+				if rng.Intn(3) == 0 {
+					forced = append(forced, lsop())
+				}
+				forced = append(forced, 101)
+				for n := rng.Intn(3); n > 0; n-- {
+					forced = append(forced, 0)
+				}
+				forced = append(forced, []int{25, 25, 16, 23}[rng.Intn(4)])
 			}
-			forced = append(forced, 101)
-			for n := rng.Intn(3); n > 0; n-- {
-				forced = append(forced, 0)
-			}
-			forced = append(forced, []int{25, 25, 16, 23}[rng.Intn(4)])
 		}
 		if len(forced) > 0 {
 			r = forced[0]
@@ -182,6 +205,12 @@ func runA(s spec, dir string, res *vf.Result) *vf.Result {
 			}
 			res.Count("diskfull_episodes", 1)
 			e.Logf("meta directory file system is now full")
+		case r == 110:
+			op = "unpin"
+			if err := e.EndOpenTx(rng.Intn(2) == 0); err != nil {
+				return herr(err)
+			}
+			e.EndReader()
 		case r == 101:
 			op = "diskfull-off"
 			if err := e.MetaFull(false); err != nil {
@@ -224,8 +253,11 @@ func runA(s spec, dir string, res *vf.Result) *vf.Result {
 			if err == nil && e.OTx != nil {
 				syncsWithUncommitted++
 			}
-		case r < 25:
+		case r < 25 || (r >= 230 && r <= 233):
 			mode := hist.CheckpointModes[rng.Intn(4)]
+			if r >= 230 {
+				mode = hist.CheckpointModes[r-230]
+			}
 			op = "ckpt-" + mode
 			err := e.LS.Checkpoint(ctx, mode)
 			e.Logf("DB.Checkpoint(%s) err=%v (open txn=%v)", mode, err, e.OTx != nil)
